@@ -159,8 +159,12 @@ for tag in ('f32', 'f64'):
                q1, q2, q1, q2, mat_store(3, 3, 'a'), mat_store(3, 3, 'b', out='prod')), outs=[(T, 'out', 9), (T, 'prod', 9)])
     R('glm_mat3_of_product_' + tag, 'mat3_cast(p * r) vs mat3_cast(p) * mat3_cast(r)  %s + %s' % (GQ, QT),
       requires=[unit('p'), unit('r')],
-      ensures=[('matrix_of_product_is_product_of_matrices', 'And(eqm(mat(out, 3, 3), mat(prod, 3, 3)))'),
-               ('is_product_of_textbook_matrices', 'And(eqm(mat(out, 3, 3), matmul(qrot_matrix(%s), qrot_matrix(%s))))' % (Q1, Q2))])
+      ensures=[('matrix_of_product_is_product_of_matrices', 'And(eqm(mat(out, 3, 3), mat(prod, 3, 3)))')])
+    d.shim('glm_mat3_cast_of_product_' + tag, 'void', q_ins(tag, 'p') + q_ins(tag, 'r'),
+           'auto a = glm::mat3_cast(%s * %s); %s' % (q1, q2, mat_store(3, 3, 'a')), outs=[(T, 'out', 9)])
+    R('glm_mat3_cast_of_product_' + tag, 'mat3_cast(p * r)  %s + %s' % (GQ, QT), requires=[unit('p'), unit('r')],
+      ensures=[('is_product_of_textbook_matrices', 'And(eqm(mat(out, 3, 3), matmul(qrot_matrix(%s), qrot_matrix(%s))))' % (Q1, Q2))],
+      tier='thorough')
 
     # ------------------------------------------------------------------ quat_cast(mat3_cast(q)) = +-q
     def fam_rt(D, sfx, tag=tag, T=T, q=q, Q=Q):
@@ -400,10 +404,11 @@ for tag in ('f32', 'f64'):
                outs=[(T, 'out', 4)])
         F('glm_quat_memory_%s%s' % (tag, sfx), 'qua(w, x, y, z) member order in memory  glm/detail/type_quat.hpp', D,
           [('memory_order_is_' + order, ' && '.join(same('out[%d]' % i, 'q' + c) for i, c in enumerate(order)))])
-        D.shim('glm_quat_index_%s%s' % (tag, sfx), 'void', q_ins(tag), '%s s = %s; out[0] = s[0]; out[1] = s[1]; out[2] = s[2]; out[3] = s[3];' % (q_t(tag), q),
-               outs=[(T, 'out', 4)])
-        F('glm_quat_index_%s%s' % (tag, sfx), 'qua::operator[]  ' + QT, D,
-          [('index_order_is_' + order, ' && '.join(same('out[%d]' % i, 'q' + c) for i, c in enumerate(order)))])
+        D.shim('glm_quat_index_%s%s' % (tag, sfx), 'void', q_ins(tag),
+               '%s s = %s; %s const& cs = s; %s %s' % (q_t(tag), q, q_t(tag), ' '.join('out[%d] = s[%d];' % (i, i) for i in range(4)),
+                                                    ' '.join('out[%d] = cs[%d];' % (4 + i, i) for i in range(4))), outs=[(T, 'out', 8)])
+        F('glm_quat_index_%s%s' % (tag, sfx), 'qua::operator[] (non-const and const)  ' + QT, D,
+          [('index_order_is_' + order, ' && '.join(same('out[%d]' % (4 * k + i), 'q' + c) for k in range(2) for i, c in enumerate(order)))])
         D.shim('glm_quat_named_ctors_%s%s' % (tag, sfx), 'void', q_ins(tag),
                '%s a = %s; %s b = %s::wxyz(qw, qx, qy, qz); %s c(qw, %s(qx, qy, qz)); %s %s %s' % (
                    q_t(tag), q, q_t(tag), q_t(tag), q_t(tag), vec_t(3, tag), q_store('a'), q_store('b', base=4), q_store('c', base=8)),
@@ -416,8 +421,9 @@ for tag in ('f32', 'f64'):
               '%s(out[%d]) == (%s(q%s) ^ %s)' % (BITS, i + 1, BITS, c, SIGN) for i, c in enumerate('xyz')))])
     both(fam_layout)
 
+# timeouts are wall clock and the machine is shared: the default engine gets timeout/4, then Groebner, case split, nlsat/2
 for fn, real, kw in contracts:
-    kw.setdefault('timeout', 120)
+    kw.setdefault('timeout', 480 if ('two_vectors' in fn or 'gtx_rotation' in fn) else 240)
 
 flat = P.build(d, 'flat', defines=['GLM_ENABLE_EXPERIMENTAL'])
 flatw = P.build(dw, 'flat', defines=['GLM_ENABLE_EXPERIMENTAL', 'GLM_FORCE_QUAT_DATA_WXYZ'], tag='c04_wxyz')
